@@ -12,6 +12,7 @@ import json
 import os
 
 import vlib
+from checks import racelib
 
 
 def classify(scn, line):
@@ -93,6 +94,12 @@ def check(run, only=None):
               {"kind": "idpool", "min": head["min"], "max": head["max"],
                "calls": [{"op": e["op"], "i": e.get("i", 0)} for e in scn[1:line]],
                "trace": scn[:line], "rejected_line": line})
+    # the allocator's only caller: an identifier taken for a recipient that vanishes while the publish is handled (its teardown
+    # parked between leaving the local registry and losing its subscriptions) must come back - "never leak" at the writer
+    rn, rparked, rnev, rval, rrej, rts = racelib.check_family(
+        run, "C06", v, keep=lambda s: any(o["op"] == "race" and o["a"]["op"] in ("close", "send") for o in s["ops"]), tag="gone")
+    validated += rval
+    tstates += rts
     rc = v.finish()
     vlib.write_evidence(run, {
         "traces_validated_against_impl": validated,
@@ -102,6 +109,7 @@ def check(run, only=None):
                 "plus %d seeded random 40-call histories on ranges of 1-6 ids and %d long histories on 0/1..65535; "
                 "distinct = distinct call sequences; each is non-trivial (>= 5 calls)" % (plans, nrand, big),
         "events_validated": nev,
+        "vanishing_recipients": {"interleavings": rn, "parked_at_their_gate": rparked, "events": rnev, "rejections": rrej},
         "trace_spec_states": tstates,
         "rejections": len(rejected),
         "exhaustive": True,
@@ -115,6 +123,8 @@ def check(run, only=None):
 
 def replay(run, path):
     rp = json.load(open(path))
+    if rp.get("kind") == "race":
+        return racelib.replay(run, "C06", path)
     spath = os.path.join(run.scratch, "scenarios.ndjson")
     with open(spath, "w") as f:
         f.write(json.dumps({"min": rp["min"], "max": rp["max"], "calls": rp["calls"]}) + "\n")
